@@ -426,6 +426,9 @@ theorem filterMask_snoc {β : Type} (xs : List β) (done : List Bool) (b : Bool)
 theorem filterMask_nil_right {β : Type} (xs : List β) : filterMask xs [] = [] := by
   cases xs <;> rfl
 
+theorem filterMask_nil_left {β : Type} (m : List Bool) : filterMask ([] : List β) m = [] := by
+  cases m <;> rfl
+
 theorem count_true_false (l : List Bool) : l.count true + l.count false = l.length := by
   induction l with
   | nil => rfl
@@ -941,5 +944,169 @@ theorem transpose_filter [Zero α] (rows : List (List α)) (m : Nat) (mask : Lis
     simp only [Function.comp]
     rw [colAt_eq_map rows j (fun r hr => by rw [h r hr]; exact hj')]
     simp [List.getD, List.getElem?_eq_getElem hi]
+
+/-! ### `Table.filter` -/
+
+/-- the recorded contract of scipy's `tocsr()` / `tocsc()`: SOME well-formed layout (any index order,
+stored zeros allowed) whose dense content is the receiver's vectors along the filtered axis -/
+structure LayoutOf [Zero α] (t : Table α) (ax : Axis) (layout : CS α) : Prop where
+  wf : layout.WF
+  nMajor : layout.nMajor = (t.ids ax).length
+  nMinor : layout.nMinor = (t.ids ax.other).length
+  dense : layout.toDense = vecs t ax
+
+/-- the mask the request stands for, computed on the specification side -/
+def maskOf (t : Table α) (ax : Axis) (keep : Keep α) (invert : Bool) : List Bool :=
+  match keep with
+  | .ids l => (t.ids ax).map (fun id => l.contains id ^^ invert)
+  | .pred p => (callsOf (vecs t ax) (t.ids ax) (mdArgs (t.md ax) (t.ids ax).length)).map (verdictOf p invert)
+  | .other => []
+
+def callsSpec (t : Table α) (ax : Axis) (keep : Keep α) : List (Call α) :=
+  match keep with
+  | .pred _ => callsOf (vecs t ax) (t.ids ax) (mdArgs (t.md ax) (t.ids ax).length)
+  | _ => []
+
+theorem callsOf_length (vs : List (List α)) (ids : List Id) (mds : List (Option Md))
+    (h1 : vs.length = ids.length) (h2 : mds.length = ids.length) : (callsOf vs ids mds).length = ids.length := by
+  induction ids generalizing vs mds with
+  | nil => cases vs <;> simp [callsOf]
+  | cons id ids ih =>
+    cases vs with
+    | nil => simp at h1
+    | cons v vs =>
+      cases mds with
+      | nil => simp at h2
+      | cons md mds => simp [callsOf, ih vs mds (by simpa using h1) (by simpa using h2)]
+
+theorem mdArgs_length (t : Table α) (hwf : t.WF) (ax : Axis) :
+    (mdArgs (t.md ax) (t.ids ax).length).length = (t.ids ax).length := by
+  obtain ⟨_, _, ho, hs⟩ := hwf
+  cases ax with
+  | obs =>
+    simp only [Table.md, Table.ids]
+    cases hm : t.omd with
+    | none => simp [mdArgs]
+    | some m => simp [mdArgs, ho m hm]
+  | samp =>
+    simp only [Table.md, Table.ids]
+    cases hm : t.smd with
+    | none => simp [mdArgs]
+    | some m => simp [mdArgs, hs m hm]
+
+theorem vecs_length [Zero α] (t : Table α) (ax : Axis) (layout : CS α) (hl : LayoutOf t ax layout) :
+    (vecs t ax).length = (t.ids ax).length := by
+  rw [← hl.dense, ← hl.nMajor]; simp [CS.toDense]
+
+theorem maskOf_length [Zero α] (t : Table α) (hwf : t.WF) (ax : Axis) (layout : CS α) (hl : LayoutOf t ax layout)
+    (keep : Keep α) (invert : Bool) (hk : ∀ (_ : Unit), keep ≠ .other) :
+    (maskOf t ax keep invert).length = (t.ids ax).length := by
+  cases keep with
+  | ids l => simp [maskOf]
+  | pred p =>
+    simp only [maskOf, List.length_map]
+    exact callsOf_length _ _ _ (vecs_length t ax layout hl) (mdArgs_length t hwf ax)
+  | other => exact absurd rfl (hk ())
+
+/-- what the installation step of `Table.filter` builds from the kernel's output is the specified table -/
+theorem install_eq [Zero α] (t : Table α) (hwf : t.WF) (ax : Axis) (mask : List Bool) :
+    (match ax with
+     | .obs => ({ t with obs := filterMask (t.ids .obs) mask, omd := (t.md .obs).map (filterMask · mask),
+                         rows := filterMask (vecs t .obs) mask } : Table α)
+     | .samp => { t with samp := filterMask (t.ids .samp) mask, smd := (t.md .samp).map (filterMask · mask),
+                         rows := transposeGrid t.obs.length (filterMask (vecs t .samp) mask) }) =
+    filterAxis t mask ax := by
+  cases ax with
+  | obs => rfl
+  | samp =>
+    simp only [filterAxis, vecs, Table.ids, Table.md]
+    rw [← hwf.1, transpose_filter t.rows t.samp.length mask hwf.2.1]
+
+theorem tableFilter_of_mask [Zero α] (t : Table α) (hwf : t.WF) (ax : Axis) (layout : CS α)
+    (hl : LayoutOf t ax layout) (keep : Keep α) (invert : Bool) (mask : List Bool) (calls : List (Call α))
+    (hm : mask.length = (t.ids ax).length)
+    (hk : computeMask (sortIndices layout) (t.ids ax) (t.md ax) keep invert = .ok (mask, calls)) :
+    tableFilter t layout ax keep invert = .ok (filterAxis t mask ax, calls) := by
+  have hwfS := sortIndices_wf layout hl.wf
+  have hrr := removeRows_eq_kept (sortIndices layout) hwfS mask (by rw [sortIndices_nMajor, hl.nMajor, hm])
+  have hd : (keptSlices (sortIndices layout) mask).toDense = filterMask (vecs t ax) mask := by
+    rw [keptSlices_toDense, sortIndices_toDense layout hl.wf, hl.dense]
+  unfold tableFilter filterKernel
+  simp only [hk, hrr]
+  rw [← install_eq t hwf ax mask]
+  cases ax <;> simp only [hd]
+
+theorem computeMask_ids [Zero α] (cs : CS α) (ids : List Id) (md : Option (List Md)) (l : List Id)
+    (invert : Bool) (hn : ids.Nodup) :
+    computeMask cs ids md (.ids l) invert =
+      if l.all (fun k => ids.contains k) then .ok (ids.map (fun id => l.contains id ^^ invert), [])
+      else .error .key := by
+  simp only [computeMask, idMask_spec ids l invert hn]
+  by_cases hall : l.all (fun k => ids.contains k) = true
+  · simp only [hall, if_true]
+  · simp only [hall]; rfl
+
+theorem computeMask_pred [Zero α] (t : Table α) (hwf : t.WF) (ax : Axis) (layout : CS α)
+    (hl : LayoutOf t ax layout) (p : Pred α) (invert : Bool) :
+    computeMask (sortIndices layout) (t.ids ax) (t.md ax) (.pred p) invert =
+      .ok (maskOf t ax (.pred p) invert, callsSpec t ax (.pred p)) := by
+  have hS := sortIndices_wf layout hl.wf
+  have := genMask_sorted p invert (sortIndices layout) (sortIndices_sorted layout hl.wf) hS.ptrLen (t.ids ax)
+    (mdArgs (t.md ax) (t.ids ax).length) 0 (List.replicate (sortIndices layout).nMinor 0)
+    (mdArgs_length t hwf ax) (by rw [sortIndices_nMajor, hl.nMajor]; omega) (by simp)
+  simp only [computeMask, this, List.drop_zero, sortIndices_toDense layout hl.wf, hl.dense, maskOf, callsSpec]
+
+/-! ### by-ID views of the specification -/
+
+theorem filterMask_map_self {β : Type} (ids : List β) (f : β → Bool) : filterMask ids (ids.map f) = ids.filter f := by
+  induction ids with
+  | nil => rfl
+  | cons x xs ih => simp only [List.map_cons, filterMask, List.filter_cons, ih]
+
+theorem lookupBy_filterMask {β : Type} (ids : List Id) (xs : List β) (mask : List Bool) (id : Id)
+    (hn : ids.Nodup) (hm : id ∈ filterMask ids mask) :
+    lookupBy (filterMask ids mask) (filterMask xs mask) id = lookupBy ids xs id := by
+  induction ids generalizing xs mask with
+  | nil => cases mask <;> simp [filterMask] at hm
+  | cons i is ih =>
+    simp only [List.nodup_cons] at hn
+    cases mask with
+    | nil => simp [filterMask] at hm
+    | cons b bs =>
+      cases xs with
+      | nil =>
+        have : lookupBy (i :: is) ([] : List β) id = none := by simp [lookupBy]
+        rw [this]
+        cases h : filterMask (i :: is) (b :: bs) <;> simp [filterMask_nil_left, lookupBy]
+      | cons x xs =>
+        cases b
+        · simp only [filterMask, Bool.false_eq_true, if_false] at hm ⊢
+          have hne : i ≠ id := fun e => hn.1 (e ▸ mem_filterMask _ _ _ hm)
+          simp only [lookupBy, hne, if_false]
+          exact ih xs bs hn.2 hm
+        · simp only [filterMask, if_true] at hm ⊢
+          by_cases he : i = id
+          · simp [lookupBy, he]
+          · simp only [lookupBy, he, if_false]
+            rcases List.mem_cons.mp hm with h | h
+            · exact absurd h.symm he
+            · exact ih xs bs hn.2 h
+
+theorem lookupBy_getElem {β : Type} (ids : List Id) (xs : List β) (hn : ids.Nodup) (i : Nat)
+    (hi : i < ids.length) (hx : i < xs.length) : lookupBy ids xs ids[i] = some xs[i] := by
+  induction ids generalizing xs i with
+  | nil => cases hi
+  | cons a as ih =>
+    simp only [List.nodup_cons] at hn
+    cases xs with
+    | nil => cases hx
+    | cons x xs =>
+      cases i with
+      | zero => simp [lookupBy]
+      | succ i =>
+        have hi' : i < as.length := by simpa using hi
+        have hne : a ≠ as[i] := fun e => hn.1 (e ▸ List.getElem_mem hi')
+        simp only [List.getElem_cons_succ, lookupBy, hne, if_false]
+        exact ih xs hn.2 i hi' (by simpa using hx)
 
 end Biom.C08
